@@ -47,36 +47,45 @@ class NFA:
         return out
 
 
-def included(a, a_start, a_end, b, b_start, b_end, limit=200000):
-    """Is L(a) a subset of L(b)?  Returns None if yes, else a shortest word (list of symbols) accepted by `a` and not by
-    `b`, together with the provenance of its last symbol in `a`."""
+def included(a, a_start, a_end, b, b_start, b_end, limit=400000, skip=None):
+    """Is L(a) a subset of L(b)?  Returns None if yes, else (word, provenance, position): a shortest word accepted by `a`
+    and not by `b`; provenance is that of the first symbol after which no sentence of `b` is possible any more (or of the
+    last symbol when the word is a proper prefix of a sentence of `b`).  `skip(info)` removes transitions of `a`."""
     A0 = a.closure([a_start])
     B0 = b.closure([b_start])
     start = (A0, B0)
     seen = {start}
-    q = deque([(start, [], None)])
+    q = deque([(start, [], None, None)])
     n = 0
     while q:
-        (A, B), word, prov = q.popleft()
+        (A, B), word, prov, dead = q.popleft()
         n += 1
         if n > limit:
             raise RuntimeError("inclusion search limit")
         if a_end in A and b_end not in B:
-            return word, prov
+            return (word, dead[0], dead[1]) if dead is not None else (word, prov, len(word) - 1)
         for sym in sorted(a.symbols_from(A)):
-            A2 = a.step(A, sym)
-            if not A2:
+            targets = set()
+            p = None
+            for s in A:
+                for t in a.tr.get(s, {}).get(sym, ()):
+                    info = a.info.get((s, sym, t))
+                    if skip is not None and info is not None and skip(info):
+                        continue
+                    targets.add(t)
+                    p = info or p
+            if not targets:
                 continue
+            A2 = a.closure(targets)
             B2 = b.step(B, sym) if B else frozenset()
             key = (A2, B2)
             if key in seen:
                 continue
             seen.add(key)
-            p = None
-            for s in A:
-                for t in a.tr.get(s, {}).get(sym, ()):
-                    p = a.info.get((s, sym, t)) or p
-            q.append((key, word + [sym], p))
+            d2 = dead
+            if d2 is None and not B2:
+                d2 = (p, len(word))
+            q.append((key, word + [sym], p, d2))
     return None
 
 
